@@ -78,58 +78,33 @@ def compute_null_space_matrix(matrix: torch.Tensor) -> torch.Tensor:
             # Convert back to original dtype before returning
             return H.to(matrix.dtype)
 
-    # If systematic form wasn't detected or verification failed, use SVD
-    U, S, V = torch.linalg.svd(matrix_float, full_matrices=True)
-
-    # Count non-zero singular values with small tolerance
-    tol = S.max() * max(matrix.size()) * torch.finfo(matrix_float.dtype).eps
-    rank = torch.sum(S > tol).item()
-
-    # The null space is spanned by the right singular vectors
-    # corresponding to the zero singular values
-    if rank < V.size(1):
-        null_space = V[rank:].clone()
-
-        # In GF(2), we need to ensure each element is binary
-        # Round to the nearest binary value
-        null_space = (null_space.abs() > 0.5).float()
-
-        # Ensure we have linearly independent rows
-        # and the result satisfies GH^T = 0
-        if null_space.size(0) > 0:
-            # Remove linearly dependent rows
-            reduced_null_space = torch.zeros((min(n - k, null_space.size(0)), n), dtype=matrix.dtype)
-            row_idx = 0
-
-            for i in range(null_space.size(0)):
-                # Check if current row is linearly independent from existing rows
-                if row_idx == 0 or not torch.all(torch.matmul(null_space[i], reduced_null_space[:row_idx].t().float()) % 2 == 0):
-                    if row_idx < reduced_null_space.size(0):
-                        reduced_null_space[row_idx] = null_space[i]
-                        row_idx += 1
-
-                # If we've found enough rows, we can stop
-                if row_idx == n - k:
-                    break
-
-            # Verify that the null space satisfies GH^T = 0
-            verification = torch.matmul(matrix_float, reduced_null_space.t()) % 2
-            if torch.all(verification < 0.01):  # Allow small numerical error
-                return reduced_null_space[:row_idx]
-
-    # If all else fails, fall back to a direct construction for common cases
-
-    # Repetition codes: generator matrix is a single row of all ones
-    if k == 1 and torch.all(matrix == 1.0):
-        # For a repetition code, check matrix verifies adjacent bits are equal
-        H = torch.zeros((n - 1, n), dtype=matrix.dtype)
-        for i in range(n - 1):
-            H[i, i] = 1.0
-            H[i, i + 1] = 1.0
-        return H
-
-    # If we couldn't find a valid null space, return an empty matrix
-    return torch.zeros((n - k, n), dtype=matrix.dtype)
+    # If systematic form wasn't detected or verification failed, compute the null space over
+    # GF(2) by Gaussian elimination (an SVD over the reals does not give the binary null space).
+    A = (matrix_float.round().to(torch.int64) % 2).clone()
+    pivot_cols = []
+    r = 0
+    for c in range(n):
+        if r == k:
+            break
+        rows_with_one = torch.nonzero(A[r:, c]).flatten()
+        if rows_with_one.numel() == 0:
+            continue
+        p = r + int(rows_with_one[0])
+        if p != r:
+            A[[r, p]] = A[[p, r]]
+        for i in range(k):
+            if i != r and A[i, c] == 1:
+                A[i] = (A[i] + A[r]) % 2
+        pivot_cols.append(c)
+        r += 1
+    free_cols = [c for c in range(n) if c not in pivot_cols]
+    null_space = torch.zeros((len(free_cols), n), dtype=matrix.dtype)
+    for idx, f in enumerate(free_cols):
+        null_space[idx, f] = 1
+        for row, c in enumerate(pivot_cols):
+            if A[row, f] == 1:
+                null_space[idx, c] = 1
+    return null_space
 
 
 def compute_reduced_row_echelon_form(matrix: torch.Tensor) -> torch.Tensor:
